@@ -6,6 +6,8 @@ import (
 	"go/token"
 	"go/types"
 
+	"golang.org/x/tools/go/cfg"
+
 	"lachk/core"
 )
 
@@ -129,6 +131,10 @@ func c09snapshot(f *core.FuncInfo, e ast.Expr) ast.Expr {
 		}
 		v, _ := f.Info().ObjectOf(id).(*types.Var)
 		d := singleDef(f, v)
+		if d == nil && hasAt {
+			// a named result / parameter / `var x T` assigned exactly once, on every path to the use
+			d = c09soleAssign(f, v, at)
+		}
 		if d == nil {
 			return e
 		}
@@ -139,6 +145,137 @@ func c09snapshot(f *core.FuncInfo, e ast.Expr) ast.Expr {
 		e = d
 	}
 	return e
+}
+
+// c09soleAssign: the variable (a named result, a parameter, a `var x T` local — anything singleDef
+// declines because of an implicit first value) is assigned exactly once in the whole declared function,
+// by a plain `v = expr` in f's own body, nothing is stored through it, and that assignment lies on
+// every path from the entry to the use point `at`: at the use the variable holds expr.
+func c09soleAssign(f *core.FuncInfo, v *types.Var, at core.Point) ast.Expr {
+	if v == nil || v.IsField() || v.Pkg() == nil || v.Parent() == v.Pkg().Scope() {
+		return nil
+	}
+	top := f
+	for top.Parent != nil {
+		top = top.Parent
+	}
+	var rhs ast.Expr
+	var pt core.Point
+	n := 0
+	for _, g := range append([]*core.FuncInfo{top}, allLits(top)...) {
+		for _, a := range assignments(g) {
+			if varOfRaw(g, a.LHS) != v {
+				root, depth := ast.Unparen(a.LHS), 0
+				for {
+					switch x := root.(type) {
+					case *ast.SelectorExpr:
+						root, depth = ast.Unparen(x.X), depth+1
+						continue
+					case *ast.IndexExpr:
+						root, depth = ast.Unparen(x.X), depth+1
+						continue
+					case *ast.StarExpr:
+						root, depth = ast.Unparen(x.X), depth+1
+						continue
+					}
+					break
+				}
+				if depth > 0 && varOfRaw(g, root) == v {
+					return nil
+				}
+				continue
+			}
+			if a.RHS == nil {
+				if _, isSpec := a.Stmt.(*ast.ValueSpec); isSpec {
+					continue
+				}
+				return nil
+			}
+			if as, ok := a.Stmt.(*ast.AssignStmt); ok && (len(as.Lhs) != len(as.Rhs) || (as.Tok != token.DEFINE && as.Tok != token.ASSIGN)) {
+				return nil
+			}
+			if g != f {
+				return nil
+			}
+			n++
+			rhs, pt = a.RHS, a.Pt
+		}
+	}
+	if n != 1 || pt == at {
+		return nil
+	}
+	if ok, _ := f.MustPassBefore([]core.Point{pt}, at); !ok {
+		return nil
+	}
+	return rhs
+}
+
+// c09sitesUnless lists the occurrences of an effect (a call accepted by pred) in f, looking into module
+// helpers up to depth: Chain[0] is the call in f, Chain[len-1] the effect itself. A helper counts when
+// it contains exactly one occurrence, not in a loop, which lies on every path through the helper that
+// takes no edge accepted by unless(helper) — "the helper performs the effect unless <guard>" (a
+// nil-guarded callback invocation moved into a method keeps its guard with it). With unless == nil the
+// effect must be on every returning path. Methods must be called on f's own receiver.
+func c09sitesUnless(f *core.FuncInfo, pred func(*core.CallSite) bool, unless func(g *core.FuncInfo) func(*cfg.Block, int) bool, depth int) []c08site {
+	var out []c08site
+	for _, cs := range f.Calls() {
+		if cs.InGo || cs.InDefer {
+			continue
+		}
+		if pred(cs) {
+			out = append(out, c08site{[]*core.CallSite{cs}})
+			continue
+		}
+		if depth <= 0 {
+			continue
+		}
+		fn, ok := cs.Callee.(*types.Func)
+		if !ok {
+			continue
+		}
+		g := f.P.FuncOf(fn)
+		if g == nil || g == f {
+			continue
+		}
+		if g.Recv() != nil && f.Recv() != nil && cs.Recv() != nil {
+			root, _ := fieldPath(f, cs.Recv())
+			if rv := varOfRaw(f, root); rv != nil && canonVar(f, rv) != f.Recv() && types.Identical(rv.Type(), f.Recv().Type()) {
+				continue // the same type's method on another object
+			}
+		}
+		inner := c09sitesUnless(g, pred, unless, depth-1)
+		if len(inner) != 1 {
+			continue
+		}
+		in := inner[0].Outer()
+		var skipEdge func(*cfg.Block, int) bool
+		if unless != nil {
+			skipEdge = unless(g)
+		}
+		if _, skip := (core.PathQuery{F: g, From: g.Entry(), Avoid: core.PointSet(in.Pt), AvoidEdge: skipEdge, TargetExit: true}).Find(); skip {
+			continue
+		}
+		if g.CanReach(in.Pt, in.Pt) {
+			continue
+		}
+		out = append(out, c08site{append([]*core.CallSite{cs}, inner[0].Chain...)})
+	}
+	return out
+}
+
+// c09callbackSites: the invocations of the function stored in the named callback field reachable from
+// f (directly, through a local holding the field, or in a helper that invokes it unless the field is nil).
+func c09callbackSites(f *core.FuncInfo, field string) []c08site {
+	pred := func(cs *core.CallSite) bool {
+		if cs.IsConv {
+			return false
+		}
+		return cs.Name == field || c09fieldOf(cs.F, cs.Call.Fun) == field
+	}
+	unless := func(g *core.FuncInfo) func(*cfg.Block, int) bool {
+		return g.GuardEdges(c09fieldNilFact(g, field, true))
+	}
+	return c09sitesUnless(f, pred, unless, 2)
 }
 
 // c09fieldOf is fieldNameOf with c09snapshot look-through.
